@@ -38,4 +38,20 @@ PROPS = {
         "rule": "lifecycle histories with the hostile value grammars (replica -1/0/N+1/2^30, timeout negative or >= duration, sizes 0..2^64-1, durations, commit expressions, operations) and generated header AppHash (empty, 1 byte, zeros, random), drained across every scheduled height; every BeginBlock / message / EndBlock runs under a 20 s per-step deadline and begin/end-block panics are chain halts. Plus direct RandomSP calls over generated populations and cursors and RandomIndex over structured seeds under the same deadline. Non-trivial = the history reached a shard expiry, renewal rotation, timeout re-assignment or give-up, replica reduction or data expiry (selection tests: a super node was present; RandomIndex: count>=2).",
         "assumptions": LIFE_ASSUME + ["per-step deadline 20 s on small states stands for 'bounded time'; growth of per-block cost with state size is not measured"],
     },
+    "C05": {
+        "tests": [{"name": "TestC05", "quick": 240, "thorough": 5000}],
+        "rule": "lifecycle histories weighted towards orders that end before any completion: creator Cancel at any point (pending, after 1-3 timeout re-assignments), ten-interval give-up (providers made ineligible through Reset), updates / force-pushes over committed models, terminate and re-creation of the same data id; timeouts 2-12 blocks. Oracle around the ending step (message, or the sao end-blocker step traced individually): payer balance rises by exactly the amount charged, the order and all shards it ever listed are gone, no provider's UsedStorage / TotalShardPledged changed, and the model equals its pre-Store snapshot field by field (or is gone with its alias). Non-trivial = an order that had been charged ended this way and (it was re-assigned before, or it was an update over a committed model, or it ended by timeout).",
+        "assumptions": LIFE_ASSUME + ["the model comparison is skipped when another owner-signed request (terminate, permission update, another order's completion) changed the same data id in between",
+                                      "exact refund / reservation comparison in an end-blocker step only when exactly one order ended and no other order or stored shard changed in that step; otherwise refund >= charged"],
+    },
+    "C06": {
+        "tests": [{"name": "TestC06", "quick": 400, "thorough": 8000}],
+        "rule": "lifecycle histories with renewals, migrations, claims, capacity changes and providers drained of funds (bank sends) so that collateral debts arise. At every observed block boundary and on a closed-block fork after every message each escrow (order, market, node, did) must hold at least its liabilities computed from the chain's own records (pending order amounts; worker rewards + future income of stored shards + queued renewals + waiting shards of deposited orders; capacity + shard pledges - recorded debt + claimable block rewards; DID balances), tolerance 1 coin per record. Terminate / Cancel / ClaimReward / RemoveVstorage must not fail with insufficient funds. Non-trivial = >=2 escrows non-zero at some boundary and the history has a debt, renewal, migration or claim.",
+        "assumptions": LIFE_ASSUME + ["liabilities are computed only from records the chain itself keeps; surplus in an escrow is C04's business"],
+    },
+    "C11": {
+        "tests": [{"name": "TestC11", "quick": 160, "thorough": 4000}],
+        "rule": "lifecycle histories (stores with different durations, shards completed at different heights, 0-3 renewals, migrations, updates and force-pushes, cancel + re-creation of the same data id) drained across every scheduled height and every height the reference model expects an end. Reference model per stored shard: paidUntil = completion height + paid duration + renewals (migration hands the remaining term over). At each observed boundary: before paidUntil the shard exists, is Completed, keeps its provider, the provider still earns, model and alias exist; at paidUntil it is gone; the model never disappears while a paid shard remains and disappears when its last shard goes (unless a new version is in flight). Non-trivial = at least one shard reached its paidUntil through block advance.",
+        "assumptions": LIFE_ASSUME + ["terminate, force-replace of the latest version and completed migration end a shard legitimately"],
+    },
 }
